@@ -12,13 +12,20 @@ RULE = ('request side: routing depths 1..4 (thorough 1..8) built through Target.
         'boundary + seeded addresses, channels 0..15, inner headers in range, payloads 0..40, seq 0..63; the bytes of '
         'the real encode_bridged_message are compared with the Lean model and peeled by the Lean chain of '
         'specification bridges (Spec.Bridges.peelN: both checksums, netFn App, cmd Send Message, channel/tracking per '
-        'hop) down to the inner request (Spec.Wire.parseReq).  Reply side: replies of the specification figure '
-        '(cmd != Send Message) wrapped in 0..depth Send Message responses; every non-zero completion code at every '
-        'layer (all 255 codes are spread over the layers and cases); bare acknowledgements at every depth; short / '
-        'truncated frames; real decode_bridged_message vs model vs what was wrapped.  Transport: real '
-        'Rmcp.send_and_receive_raw with a routed Target over a fake UDP socket, max_retries = 0; the transmitted nest '
-        'is peeled by the specification bridges, the simulated target answers the inner request it received, the '
-        'answer travels back after 0..3 bare acknowledgements as wrapped / plain / failing Send Message responses.  '
+        'hop) down to the inner request (Spec.Wire.parseReq).  Reply side: replies of the specification figure to '
+        'every inner command but Send Message itself (App/34h) - command 34h in the other network functions '
+        'included, directed: HPM.1 Get Upgrade Status 2Ch/34h at every depth - wrapped in 0..depth Send Message '
+        'responses; every non-zero completion code at every layer (all 255 codes are spread over the layers and '
+        'cases); bare acknowledgements at every depth; short / truncated frames; single corrupted wrapper bytes (tie); '
+        'real decode_bridged_message (without and, where the tree has it, with verify=True) vs model vs what was '
+        'wrapped.  Transport: real Rmcp.send_and_receive_raw with a routed, single-hop or un-routed Target over a '
+        'fake UDP socket; the transmitted nest is peeled by the specification bridges, the simulated target answers '
+        'the inner request it received (inner commands incl. 34h outside netFn App, and the request 2Ch/34h NOT '
+        'bridged), the answer travels back after 0..3 bare acknowledgements as wrapped / plain / failing Send Message '
+        'responses; a wrapped reply with ONE corrupted byte of each wrapper field (address, netFn, both checksums, '
+        'sequence, command, completion code) at every depth must be dropped (no data, no completion code raised) and '
+        'the intact copy behind it returned; the error acknowledgement of an EARLIER transaction (other sequence '
+        'number) in front of the reply must not be raised for the request in hand, bridged or not.  '
         'Histories: ONE Target object re-routed 2..5 times (Target(routing=...) / set_routing / '
         'set_routing_information, list and string form; longer, equal and SHORTER paths, sharing the leading hops of '
         'the previous path or not; a request through the object between the re-routings): after every re-routing '
@@ -34,7 +41,12 @@ ASSUMPTIONS = [
     'the transport model covers acknowledgement skipping, unwrapping, filtering and the returned bytes; what happens '
     'to a frame that does not match (re-queue, retry accounting) is property C04 and is neither modelled nor generated here',
     'RMCP / session-header packing of the fake datagrams is not under test here (C05): auth type none, fixed layout',
-    'inner command is not Send Message itself (as the property says); header fields and addresses are naturals in range',
+    'the inner command is not Send Message itself, i.e. not (netFn App, command 34h) - as the property says; command '
+    '34h in every OTHER network function is generated; header fields and addresses are naturals in range',
+    'which of the two recognition variants of Model/Bridge.lean (as shipped: command byte only, everywhere / repaired: '
+    'netFn and command, verified, only for the outstanding Send Message) the correspondence compares with is decided by '
+    'probing the real code with the witness of the counter-example theorems (HPM.1 Get Upgrade Status reply, wrapped and '
+    'un-bridged); the PROPERTY is judged on the real code in either case',
     'Target.set_routing is modelled as REPLACING the stored path (Model/Bridge.lean: Target.setRouting / reroute / '
     'request; theorems reroute_last, reroute_peel_all); tied by the re-routing histories on one real Target object',
 ]
@@ -166,12 +178,40 @@ def real_send(rq, rs, ch, seq, tracking, payload):
         return _tag(e)
 
 
-def real_unwrap(frame):
+def has_verify():
+    import inspect
     from pyipmi.interfaces.ipmb import decode_bridged_message
     try:
+        return 'verify' in inspect.signature(decode_bridged_message).parameters
+    except (TypeError, ValueError):
+        return False
+
+
+def real_unwrap(frame, verify=False):
+    from pyipmi.interfaces.ipmb import decode_bridged_message
+    try:
+        if verify:
+            return 'ok ' + lean.hexs(bytes(bytearray(decode_bridged_message(frame, verify=True))))
         return 'ok ' + lean.hexs(bytes(bytearray(decode_bridged_message(frame))))
     except Exception as e:  # noqa
         return _tag(e)
+
+
+# ---- which variant of Model/Bridge.lean does the tree implement?  (witnesses of Props.C09.*_asShipped_counterexample)
+HPM_REPLY = bytes.fromhex('20b42c7214340000330013')            # 2Ch/34h reply: cc 00, data 00 33 00
+HPM_WRAPPED = bytes.fromhex('811c632014340020b42c721434000033001398')
+_variant = {}
+
+
+def variants():
+    """{'dec': 'a'|'r', 'rcv': 'a'|'r'}: decode_bridged_message / the transport, probed once per run"""
+    if not _variant:
+        _variant['dec'] = 'r' if real_unwrap(HPM_WRAPPED) == 'ok ' + lean.hexs(HPM_REPLY) else 'a'
+        sc = {'routing': [], 'slave': 0x20, 'target': 0x72, 'lun': 0, 'netfn': 0x2c, 'cmd': 0x34, 'data': '00',
+              'seq0': 4, 'max_retries': 0}
+        _, out, _ = real_transport(sc, [HPM_REPLY])
+        _variant['rcv'] = 'r' if out == 'ok 00003300' else 'a'
+    return _variant
 
 
 class FakeSock(object):
@@ -180,17 +220,25 @@ class FakeSock(object):
     def __init__(self, script):
         self.sent = []
         self.script = list(script)
+        self.timeout = 2.0
 
     def sendto(self, pdu, addr):
         self.sent.append(bytes(pdu))
 
     def recvfrom(self, n):
+        if self.timeout == 0:
+            # non-blocking read (the repaired transport discards stale datagrams before it sends): the script is
+            # what arrives AFTER the request, nothing is waiting in the socket of a fresh interface
+            raise BlockingIOError(11, 'Resource temporarily unavailable')
         if not self.script:
             raise socket.timeout()
         return (self.script.pop(0), ('bmc', 623))
 
     def settimeout(self, t):
-        pass
+        self.timeout = t
+
+    def gettimeout(self):
+        return self.timeout
 
 
 def lan_datagram(frame):
@@ -215,8 +263,12 @@ def real_transport(sc, frames):
     sock = FakeSock([lan_datagram(f) for f in frames])
     intf._sock = sock
     intf.next_sequence_number = sc['seq0']
-    t = _routing_objs(sc['routing'], sc.get('as_string', False), sc.get('history'))
-    t.ipmb_address = sc['target']
+    if sc['routing']:
+        t = _routing_objs(sc['routing'], sc.get('as_string', False), sc.get('history'))
+        t.ipmb_address = sc['target']
+    else:
+        from pyipmi import Target
+        t = Target(sc['target'])             # no routing at all: the request is not bridged
     try:
         r = intf.send_and_receive_raw(t, sc['lun'], sc['netfn'], bytes([sc['cmd']]) + lean.unhex(sc['data']))
         out = 'ok ' + lean.hexs(bytes(bytearray(r)))
@@ -229,11 +281,20 @@ def real_transport(sc, frames):
 # generators
 # ---------------------------------------------------------------------------------------
 
+NETFN_APP = 6
+HPM_UPGRADE_STATUS = (0x2c, 0x34)       # PICMG HPM.1 Get Upgrade Status: command id 34h in another netFn
+
+
 def gen_hdr(rng, request=True, not_send_message=True):
     h = [rnglib.boundary_int(rng, b) for b in BITS]
     if request:
         h[2] &= 0x3e
-    if not_send_message and h[6] == SEND_MESSAGE:
+    if not_send_message and rng.random() < 0.15:
+        # command id 34h in a network function other than App: NOT Send Message
+        h[6] = SEND_MESSAGE
+        if (h[2] & 0x3e) == NETFN_APP:
+            h[2] = (HPM_UPGRADE_STATUS[0] | (h[2] & 1)) if rng.random() < 0.5 else ((h[2] + 2) % 64)
+    if not_send_message and h[6] == SEND_MESSAGE and (h[2] & 0x3e) == NETFN_APP:
         h[6] = 0x35
     return tuple(h)
 
@@ -332,9 +393,9 @@ def judge_bridge_frame(ctx, drv, case, real, routing, hdr, seq, payload, stale='
     return hops, inner
 
 
-def judge_unwrap(ctx, drv, frame, expect, kind, model=None):
-    case = {'op': 'unwrap', 'frame': lean.hexs(frame), 'expect': expect, 'kind': kind}
-    real = real_unwrap(frame)
+def judge_unwrap(ctx, drv, frame, expect, kind, model=None, verify=False, cmd34=False):
+    case = {'op': 'unwrap', 'frame': lean.hexs(frame), 'expect': expect, 'kind': kind, 'verify': verify}
+    real = real_unwrap(frame, verify)
     if model is not None and model != real:
         if not (model.startswith('py:') and real.startswith('py:')):
             ctx.disagree('decode_bridged_message', case, model, real)
@@ -343,9 +404,15 @@ def judge_unwrap(ctx, drv, frame, expect, kind, model=None):
         what = {'reply': 'a reply wrapped in Send Message responses does not unwrap to exactly that reply',
                 'error': 'a failing Send Message layer is not reported as CompletionCodeError with its code',
                 'ack': 'a bare Send Message acknowledgement does not unwrap to the empty string'}[kind]
+        if cmd34:
+            sig += ':inner-cmd-34h'
+            what += ' (inner command id 34h in a network function other than App)'
         ctx.violate(sig, what, case, expected=expect, observed=real)
         return False
     return True
+
+
+WRAPPER_FIELDS = ('rqSA', 'netFn/rqLUN', 'header checksum', 'rsSA', 'rqSeq/rsLUN', 'command', 'completion code')
 
 
 def transport_frames(drv, sc, inner_req, hops):
@@ -355,19 +422,54 @@ def transport_frames(drv, sc, inner_req, hops):
     reply = lean.unhex(drv.ask('mkreply %s %s' % (hs(h), sc['body'])))
     layers = [(layer_of(hop), 0) for hop in hops]
     frames = []
-    for k in range(sc['acks']):
+    for k in range(sc.get('acks', 0)):
         # acknowledgement of the outermost k+1 .. layers: the first `depth` bridges answer at once
         d = 1 + (k % max(1, len(layers)))
         frames.append(lean.unhex(drv.ask(wrap_line(b'', layers[:d]))))
-    if sc['final'] == 'wrapped':
-        frames.append(lean.unhex(drv.ask(wrap_line(reply, layers))))
-    elif sc['final'] == 'plain':
+    late = sc.get('late_ack')
+    if late:
+        # the (failing) acknowledgement of an EARLIER transaction of this interface: same bridge, the sequence
+        # number of that transaction, arrives only now
+        seq = h[5]
+        old = ((0x20, 0, 6, sc['slave'], 0, (seq - late['age']) % 64, SEND_MESSAGE), late['cc'])
+        frames.append(lean.unhex(drv.ask(wrap_line(b'', [old]))))
+    final = sc['final']
+    if final in ('wrapped', 'corrupt-wrapper'):
+        good = lean.unhex(drv.ask(wrap_line(reply, layers)))
+        if final == 'corrupt-wrapper':
+            # one byte of wrapper number `layer` (0 = outermost): a header/completion-code byte or its checksum
+            j, pos = sc['corrupt']['layer'], sc['corrupt']['pos']
+            off = 7 * j + pos if pos >= 0 else len(good) - 1 - j
+            bad = bytearray(good)
+            bad[off] = (bad[off] + sc['corrupt']['delta']) % 256
+            frames.append(bytes(bad))
+        frames.append(good)
+    elif final == 'plain':
         frames.append(reply)
-    elif sc['final'] == 'error':
+    elif final == 'error':
         j = sc['fail_layer']
         ls = [(l, 0) for l, _ in layers[:j]] + [(layers[j][0], sc['cc'])]
         frames.append(lean.unhex(drv.ask(wrap_line(b'', ls))))
     return frames, reply
+
+
+def model_rx(drv, bridge, inner_req, frames, max_retries):
+    """The Lean model of the loop body (`cls`: one received frame -> ack | hit | noise | err) under the retry
+    accounting of the loop (C04's subject, the few lines needed here): an acknowledgement is free, a frame the
+    filter rejects costs one unit of a budget of max_retries + 1, silence after the last frame ends in RetryError."""
+    noise = 0
+    for f in frames:
+        c = drv.ask('cls %s %s %s 00011 %s' % (variants()['rcv'], bridge, hs(inner_req), lean.hexs(f)))
+        if c == 'ack':
+            continue
+        if c.startswith('hit'):
+            return 'ok ' + (c.split()[1] if len(c.split()) > 1 else '-')
+        if c.startswith('err '):
+            return c[4:]
+        noise += 1
+        if noise > max_retries:
+            return 'RetryError'
+    return 'RetryError'
 
 
 def judge_transport(ctx, drv, sc, check_model=True):
@@ -375,9 +477,11 @@ def judge_transport(ctx, drv, sc, check_model=True):
     case['op'] = 'transport'
     case['routing'] = [list(r) for r in sc['routing']]
     routing = sc['routing']
+    bridged = len(routing) > 1
     seq = (sc['seq0'] + 1) % 64
     hdr = (sc['target'], sc['lun'], sc['netfn'], sc['slave'], 0, seq, sc['cmd'])
     payload = lean.unhex(sc['data'])
+    cmd34 = sc['cmd'] == SEND_MESSAGE
     # 1st pass without any reply: what does the code transmit?
     before = len(_all_paths) if 'process_before' not in sc else 0
     sent, _, _ = real_transport(sc, [])
@@ -402,11 +506,13 @@ def judge_transport(ctx, drv, sc, check_model=True):
                     expected='one datagram', observed=repr(sent)[:200])
         return False
     tx = sent[0]
+    # the last hop: a routed target takes both addresses from it; an un-routed one is addressed directly
+    last = routing[-1] if routing else (sc['slave'], sc['target'], 0)
     if check_model:
-        m = drv.ask('brg %s %s %d %s' % (rt(routing), hs(hdr), seq, lean.hexs(payload)))
+        m = drv.ask('brg %s %s %d %s' % (rt(routing or [last]), hs(hdr), seq, lean.hexs(payload)))
         if m != 'ok ' + lean.hexs(tx):
             ctx.disagree('Rmcp tx', case, m, 'ok ' + lean.hexs(tx))
-    n = len(routing) - 1
+    n = max(0, len(routing) - 1)
     peeled = drv.ask('peel %d %s' % (n, lean.hexs(tx)))
     if peeled == 'none':
         ctx.violate('C09:transport:layer-rejected', 'a bridge refuses the request transmitted by Rmcp', case,
@@ -420,7 +526,6 @@ def judge_transport(ctx, drv, sc, check_model=True):
                     expected=[list(x) for x in want], observed=[list(x) for x in hops])
         return False
     parsed = drv.ask('parse ' + inner)
-    last = routing[-1]
     want_inner = 'some %s %s' % (hs((last[1], hdr[1], hdr[2], last[0], 0, seq, hdr[6])), lean.hexs(payload))
     if parsed != want_inner:
         ctx.violate('C09:transport:inner-request', 'the target does not receive the original request', case,
@@ -434,19 +539,43 @@ def judge_transport(ctx, drv, sc, check_model=True):
     else:
         expect = 'ok ' + sc['body']
     if check_model:
-        flags = '00011'
-        m = drv.ask('rcv %s %s %s' % (hs(inner_req), flags, ';'.join(lean.hexs(f) for f in frames)))
+        m = model_rx(drv, seq if bridged else '-', inner_req, frames, sc['max_retries'])
         if m != out:
             ctx.disagree('Rmcp rx', case, m, out)
     if out != expect:
+        suffix = (':cmd-34h' if cmd34 else '') + ('' if bridged else ':unbridged')
         if sc['final'] == 'error':
             sig, what = 'C09:transport:error-code', 'a failing intermediate Send Message is not reported with its completion code'
-        elif sc['acks']:
+        elif sc['final'] == 'corrupt-wrapper':
+            fld = WRAPPER_FIELDS[sc['corrupt']['pos']] if sc['corrupt']['pos'] >= 0 else 'payload checksum'
+            if out.startswith('CompletionCodeError') or out.startswith('py:'):
+                sig = 'C09:transport:corrupted-wrapper-raises'
+                what = ('a Send Message response with one corrupted byte (%s of wrapper %d) is not dropped: %s is raised '
+                        'from it' % (fld, sc['corrupt']['layer'], out))
+            else:
+                sig = 'C09:transport:corrupted-wrapper'
+                what = ('after a Send Message response with one corrupted byte (%s of wrapper %d) the intact copy is '
+                        'not returned' % (fld, sc['corrupt']['layer']))
+        elif sc.get('late_ack'):
+            sig = 'C09:transport:foreign-ack-raised' if out.startswith('CompletionCodeError') else 'C09:transport:foreign-ack'
+            what = ('the acknowledgement of an EARLIER transaction (sequence number %d, completion code %02xh) in front '
+                    'of the reply: %s instead of the reply' % ((seq - sc['late_ack']['age']) % 64, sc['late_ack']['cc'], out))
+        elif sc.get('acks'):
             sig, what = 'C09:transport:ack-not-awaited', ('after a bare Send Message acknowledgement the transport does not '
                                                           'wait for (and return) the forwarded reply')
         else:
-            sig, what = 'C09:transport:reply', 'the routed request does not return the target\'s reply'
-        ctx.violate(sig, what, case, expected=expect, observed=out)
+            sig, what = 'C09:transport:reply', 'the %s request does not return the target\'s reply' % (
+                'routed' if bridged else 'un-bridged')
+        if cmd34 and sc['final'] != 'error':
+            what += ' (command id 34h, network function %02xh: not Send Message)' % sc['netfn']
+        ctx.violate(sig + suffix, what, case, expected=expect, observed=out)
+        return False
+    if sc['final'] == 'corrupt-wrapper' and unread:
+        fld = WRAPPER_FIELDS[sc['corrupt']['pos']] if sc['corrupt']['pos'] >= 0 else 'payload checksum'
+        ctx.violate('C09:transport:corrupted-wrapper-accepted',
+                    'the data was taken from a Send Message response with one corrupted byte (%s of wrapper %d): the '
+                    'intact copy behind it was never read' % (fld, sc['corrupt']['layer']), case,
+                    expected='damaged frame dropped, intact copy read', observed='%d datagram(s) left unread' % unread)
         return False
     if len(sent2) != 1 or sent2[0] != tx:
         ctx.violate('C09:transport:resend', 'the request was not transmitted exactly once although every datagram arrived',
@@ -513,7 +642,10 @@ def _run_unwrap(ctx, drv, rng, max_layers, per_layer, codes):
     for k in range(0, max_layers + 1):
         for i in range(per_layer):
             req = gen_hdr(rng)
-            body = bytes([rng.choice((0, 0, 0xc0, rng.randrange(256)))]) + gen_bytes(rng, rng.choice((0, 1, 5, 40, rng.randrange(0, 41))))
+            if i < 3:
+                # directed: command id 34h outside netFn App (HPM.1 Get Upgrade Status 2Ch/34h, OEM 30h/34h, 0Ah/34h)
+                req = req[:2] + ((0x2c, 0x30, 0x0a)[i],) + req[3:6] + (SEND_MESSAGE,)
+            body = bytes([rng.choice((0, 0, 0xc0, 0x80, rng.randrange(256)))]) + gen_bytes(rng, rng.choice((0, 1, 3, 5, 40, rng.randrange(0, 41))))
             layers = [(gen_hdr(rng, request=True, not_send_message=False), 0) for _ in range(k)]
             meta.append(('reply', k, req, body, layers))
     for k in range(1, max_layers + 1):
@@ -531,27 +663,100 @@ def _run_unwrap(ctx, drv, rng, max_layers, per_layer, codes):
         inner = lean.unhex(next(replies)) if m[0] == 'reply' else m[3]
         lines.append((m, inner))
     frames = drv.ask_many([wrap_line(inner, m[4]) for m, inner in lines])
-    stim = []
+    stim = []       # (frame, expect, kind, layers, inner command is 34h)
     for (m, inner), fx in zip(lines, frames):
         frame = lean.unhex(fx)
         if m[0] == 'reply':
-            stim.append((frame, 'ok ' + lean.hexs(inner), 'reply', m[1]))
+            c34 = m[2][6] == SEND_MESSAGE
+            stim.append((frame, 'ok ' + lean.hexs(inner), 'reply', m[1], c34))
             if m[1] >= 1 and len(stim) % 5 == 0:
                 # truncated / short frames: tie only
-                stim.append((frame[:rng.randrange(0, 8)], None, 'short', m[1]))
-                stim.append((frame[:6], None, 'short', m[1]))
+                stim.append((frame[:rng.randrange(0, 8)], None, 'short', m[1], c34))
+                stim.append((frame[:6], None, 'short', m[1], c34))
+            if m[1] >= 1 and len(stim) % 3 == 0:
+                # one corrupted byte of a wrapper: tie only here (what must happen to it is judged through the transport)
+                j = rng.randrange(m[1])
+                off = rng.choice([7 * j + q for q in range(7)] + [len(frame) - 1 - j])
+                bad = bytearray(frame)
+                bad[off] = (bad[off] + rng.randrange(1, 256)) % 256
+                stim.append((bytes(bad), None, 'corrupt', m[1], c34))
         elif m[0] == 'ack':
-            stim.append((frame, 'ok -', 'ack', m[1]))
+            stim.append((frame, 'ok -', 'ack', m[1], False))
         else:
-            stim.append((frame, 'CompletionCodeError:%d' % m[2], 'error', m[1]))
-    models = drv.ask_many(['dec ' + lean.hexs(f) for f, _, _, _ in stim])
-    for (frame, expect, kind, k), mo in zip(stim, models):
-        ctx.case(('dec', frame), nontrivial=k >= 1)
-        ctx.count('unwrap:%s' % kind)
-        ctx.count('unwrap:layers-%d' % k)
-        ctx.count('unwrap-outcome:' + (mo.split(':')[0] if not mo.startswith('ok') else ('ok-empty' if mo == 'ok -' else 'ok')))
-        judge_unwrap(ctx, drv, frame, expect, kind, mo)
+            stim.append((frame, 'CompletionCodeError:%d' % m[2], 'error', m[1], False))
+    v = variants()['dec']
+    modes = (False, True) if has_verify() else (False,)
+    for verify in modes:
+        models = drv.ask_many(['dec %s %d %s' % (v, int(verify), lean.hexs(f)) for f, _, _, _, _ in stim])
+        for (frame, expect, kind, k, c34), mo in zip(stim, models):
+            ctx.case(('dec', verify, frame), nontrivial=k >= 1)
+            ctx.count('unwrap:%s' % kind)
+            ctx.count('unwrap:layers-%d' % k)
+            ctx.count('unwrap:verify-%s' % ('on' if verify else 'off'))
+            if c34:
+                ctx.count('unwrap:inner-cmd-34h-other-netfn')
+            ctx.count('unwrap-outcome:' + (mo.split(':')[0] if not mo.startswith('ok') else ('ok-empty' if mo == 'ok -' else 'ok')))
+            judge_unwrap(ctx, drv, frame, expect, kind, mo, verify, c34)
     ctx.sample({'op': 'unwrap', 'frame': lean.hexs(stim[-1][0]), 'expect': stim[-1][1], 'model': models[-1]})
+
+
+def _scenario(rng, routing, **kw):
+    sc = {'routing': routing, 'slave': rnglib.boundary_int(rng, 8), 'target': rnglib.boundary_int(rng, 8),
+          'lun': rng.randrange(4), 'netfn': rng.randrange(32) * 2, 'cmd': gen_hdr(rng)[6],
+          'data': lean.hexs(gen_bytes(rng, rng.choice((0, 1, 40, rng.randrange(0, 41))))),
+          'seq0': rng.choice((0, 62, 63, rng.randrange(64))), 'acks': 0, 'final': 'wrapped', 'max_retries': 0,
+          'body': lean.hexs(bytes([rng.choice((0, 0, 0xc1))]) + gen_bytes(rng, rng.randrange(0, 41)))}
+    if sc['cmd'] == SEND_MESSAGE and sc['netfn'] == NETFN_APP:
+        sc['netfn'] = HPM_UPGRADE_STATUS[0]
+    sc.update(kw)
+    return sc
+
+
+def _run_transport_cmd34(ctx, drv, rng, depths):
+    """command id 34h in network functions other than App through the real transport: not bridged at all
+    (no routing / single hop: `Hpm.get_upgrade_status()` over RMCP) and as the inner command at every depth"""
+    for d in [0] + list(depths):
+        for netfn, body in ((0x2c, '0000330' + '0'), (0x30, '00aabb'), (0x2c, '80'), (0x0a, '00'), (0x3e, '00' + 'ff' * 9)):
+            for acks, final in ((0, 'wrapped'), (0, 'plain'), (1, 'wrapped')):
+                if d <= 1 and (acks or final == 'plain'):
+                    continue
+                if ctx.time_left() < 20:
+                    return
+                sc = _scenario(rng, gen_routing(rng, d), netfn=netfn, cmd=SEND_MESSAGE, body=body, acks=acks, final=final)
+                ctx.case(('transport-cmd34', repr(sorted(sc.items()))))
+                ctx.count('transport:cmd-34h-netfn-%02xh:%s' % (netfn, 'un-routed' if d == 0 else 'single-hop' if d == 1 else 'bridged'))
+                judge_transport(ctx, drv, sc)
+
+
+def _run_transport_faults(ctx, drv, rng, depths):
+    """one corrupted byte of every wrapper field at every depth (the damaged frame must be dropped and the intact
+    copy behind it returned); the failing acknowledgement of an earlier transaction in front of the reply"""
+    for d in depths:
+        if d < 2:
+            continue
+        for layer in range(d - 1):
+            for pos in (0, 1, 2, 3, 4, 5, 6, -1):
+                if ctx.time_left() < 20:
+                    return
+                delta = rng.choice((1, 0x80, 0xff, rng.randrange(1, 256)))
+                if pos == 6:
+                    delta = rng.choice((0x83, 0xc0, 0xc3, 0xff, rng.randrange(1, 256)))   # cc 00h -> an error code
+                sc = _scenario(rng, gen_routing(rng, d), final='corrupt-wrapper', max_retries=rng.choice((1, 2)),
+                               corrupt={'layer': layer, 'pos': pos, 'delta': delta})
+                ctx.case(('transport-corrupt', repr(sorted(sc.items()))))
+                ctx.count('transport:corrupted-wrapper:%s' % (WRAPPER_FIELDS[pos] if pos >= 0 else 'payload checksum'))
+                ctx.count('transport:corrupted-wrapper:depth-%d' % d)
+                judge_transport(ctx, drv, sc)
+    for d in [0, 1] + [x for x in depths if x >= 2]:
+        for cc in (0x83, 0xc3, 0xff, rng.randrange(1, 256)):
+            for age in (1, 2, rng.randrange(1, 64)):
+                if ctx.time_left() < 20:
+                    return
+                sc = _scenario(rng, gen_routing(rng, d), final='wrapped' if d >= 2 else 'plain',
+                               max_retries=rng.choice((1, 3)), late_ack={'cc': cc, 'age': age})
+                ctx.case(('transport-late-ack', repr(sorted(sc.items()))))
+                ctx.count('transport:late-ack:%s' % ('bridged' if d >= 2 else 'not-bridged'))
+                judge_transport(ctx, drv, sc)
 
 
 def _run_transport(ctx, drv, rng, depths, rounds):
@@ -711,6 +916,8 @@ def run(ctx):
     _run_unwrap(ctx, drv, rng, depths[-1], 100 if quick else 400, codes)
     _run_reroute(ctx, drv, ctx.rng('c09-reroute'), 60 if quick else 1500, depths[-1])
     _run_two_targets(ctx, drv, ctx.rng('c09-two-targets'), 40 if quick else 600, depths[-1])
+    _run_transport_cmd34(ctx, drv, ctx.rng('c09-cmd34'), depths)
+    _run_transport_faults(ctx, drv, ctx.rng('c09-faults'), depths)
     _run_transport(ctx, drv, rng, depths, 12 if quick else 60)
     _run_transport_codes(ctx, drv, rng)
 
@@ -728,6 +935,10 @@ def search(ctx):
         _run_unwrap(ctx, drv, rng, 6, 60, codes)
     if not ctx.violations:
         _run_reroute(ctx, drv, rng, 200, 6)
+    if not ctx.violations:
+        _run_transport_cmd34(ctx, drv, rng, [1, 2, 3, 4, 5])
+    if not ctx.violations:
+        _run_transport_faults(ctx, drv, rng, [2, 3, 4, 5])
     if not ctx.violations:
         _run_transport(ctx, drv, rng, [1, 2, 3, 4, 5], 6)
 
@@ -771,15 +982,17 @@ def replay(ctx, v):
         return got != want
     elif op == 'unwrap':
         frame = lean.unhex(case['frame'])
-        print('decode_bridged_message(%s)' % case['frame'])
-        print('  code     : %s' % real_unwrap(frame))
+        verify = bool(case.get('verify')) and has_verify()
+        print('decode_bridged_message(%s%s)' % (case['frame'], ', verify=True' if verify else ''))
+        print('  code     : %s' % real_unwrap(frame, verify))
         print('  expected : %s' % case['expect'])
-        judge_unwrap(c2, drv, frame, case['expect'], case['kind'])
+        judge_unwrap(c2, drv, frame, case['expect'], case['kind'], None, verify)
     elif op == 'transport':
         sc = dict(case)
         sc['routing'] = [tuple(r) for r in case['routing']]
-        print('Rmcp.send_and_receive_raw, routing %s, %d bare acks then %s reply, max_retries %d' % (
-            sc['routing'], sc['acks'], sc['final'], sc['max_retries']))
+        print('Rmcp.send_and_receive_raw netFn %02xh cmd %02xh, routing %s, %d bare acks%s then %s reply, max_retries %d' % (
+            sc['netfn'], sc['cmd'], sc['routing'] or 'none (not bridged)', sc.get('acks', 0),
+            (', late acknowledgement %s' % sc['late_ack']) if sc.get('late_ack') else '', sc['final'], sc['max_retries']))
         for path, form in sc.get('history') or []:
             print('  the same Target object was routed before (%s): %s' % (form, [tuple(r) for r in path]))
         judge_transport(c2, drv, sc, check_model=False)
